@@ -54,7 +54,9 @@ func only(rule Rule, subs ...string) Rule {
 var stdAssumptions = []string{
 	"go/types, go/ssa and the x/tools call graphs (v0.29.0) represent the program faithfully; type sizes are those of gc/amd64",
 	"the specification tables in checker/spec.go (SEMI E5 format codes and widths, SEMI E37 session types and header layout) and the value domains in the rule files are correct transcriptions of the standards and of the library's documentation",
-	"strconv, regexp, math, encoding/binary, strings, unicode and fmt behave as documented",
+	"strconv, regexp, math, encoding/binary, strings, unicode and fmt behave as documented; where the abstract evaluator computes such a function on known arguments it uses the checker's own standard library (pure functions) or a restatement of the documented effect (encoding/binary, strings.Builder, bytes.Buffer writers)",
+	"where an obligation says it was evaluated on enumerated inputs, the enumerated values cover the stated finite domain or one representative per cell; structural sizes named there (number of elements, number of variables, string lengths) are bounded unrollings, extended to all sizes only under the uniformity of the loop body, which is not proved",
+	"distinct input memory paths do not alias (the receiver's fields, the arguments and their elements are different cells)",
 	"the rule engines are my own and unverified: every claimed clause is a necessary condition of the property, decided from source shape; see coverage.not_decided for what remains behavioural",
 }
 
